@@ -66,16 +66,16 @@ class NumpyFloatWhere:
     """numpy proxy whose where() returns float64: the counterfactual 'integer literal
     branches printed as floats'."""
 
-    def __init__(self):
-        import numpy
-
-        self._np = numpy
+    def __init__(self, base=None):
+        if base is None:
+            import numpy as base
+        self._np = base
 
     def __getattr__(self, k):
         return getattr(self._np, k)
 
     def where(self, c, a, b):
-        return self._np.where(c, a, b).astype(self._np.float64)
+        return self._np.asarray(self._np.where(c, a, b)).astype(self._np.float64)
 
 
 def int_where_counterfactual(code, fn, ref, pts, judge_fn):
@@ -84,7 +84,7 @@ def int_where_counterfactual(code, fn, ref, pts, judge_fn):
     from ..exec.pyexec import PyModule
 
     mod = PyModule(code)
-    mod.ns["numpy"] = NumpyFloatWhere()
+    mod.ns["numpy"] = NumpyFloatWhere(mod.ns.get("numpy"))
     return judge_fn(mod)
 
 
@@ -115,6 +115,31 @@ def has_int_branch_conditional(text):
     return False
 
 
+def huge_integer_atom(ode, ref, names):
+    """A sympy Integer >= 2**63 in the symbolic stage (written or computed, e.g. 3**67)."""
+    import sympy
+
+    for top in names:
+        for n in closure_names(ref, top):
+            try:
+                ex = ode[n].expr
+            except Exception:
+                continue
+            for f in ex.atoms(sympy.Integer):
+                if abs(int(f)) >= 2**63:
+                    return True
+    return False
+
+
+def int_branch_in_closure(ref, name):
+    from ..refmodel.model import RefModel
+
+    for n in closure_names(ref, name):
+        if has_int_branch_conditional(f"states(zz=1)\ndzz_dt = {ref.assigns[n].rhs}\n"):
+            return True
+    return False
+
+
 def has_huge_int_literal(text):
     import re
 
@@ -142,4 +167,64 @@ def c01_matchers(v, text="", features=None, ode=None, ref=None, code=None, reche
                     return "C01-integer-branches-make-int64-where"
             except Exception:
                 return None
+    return None
+
+
+HUGE_INT_TEXTS = (
+    "loop of ufunc does not support argument 0 of type int",
+    "Python int too large to convert to C long",
+    "too large to convert to int64",
+    "An overflow was encountered while parsing an argument to a jitted computation",
+)
+
+
+@matcher("C03")
+def c03_matchers(v, text="", features=None, ode=None, ref=None, code=None, **kw):
+    d = v.get("detail", {})
+    exc = d.get("exc", "") or ""
+    kind = v.get("kind")
+    names = [d["name"]] if d.get("name") in (ref.assigns if ref else {}) else (list(ref.derivs.values()) if ref else [])
+    if kind == "raises" and "An overflow was encountered while parsing an argument to a jitted computation" in exc and "<class 'int'>" in exc:
+        # only an integer literal of the generated code (or integer arithmetic between such literals) can be a Python int here
+        return "C03-huge-int-literal"
+    if kind == "raises" and any(t in exc for t in HUGE_INT_TEXTS) and (has_huge_int_literal(text) or has_huge_int_literal(code or "") or (ode is not None and huge_integer_atom(ode, ref, list(ref.assigns)))):
+        return "C03-huge-int-literal"
+    if kind in ("value", "raises") and ode is not None and ref is not None:
+        if (kind == "value" or "name 'inf'" in exc or "name 'nan'" in exc) and folded_constant_out_of_range(ode, ref, names):
+            return "C03-folded-constant-out-of-float-range"
+    if kind == "raises" and "Integers cannot be raised to negative powers" in exc and has_int_branch_conditional(text):
+        return "C03-integer-branches-make-int-where"
+    if kind == "value" and ref is not None and code and d.get("name") in ref.assigns and int_branch_in_closure(ref, d["name"]) and v.get("_point"):
+        # counterfactual: the same generated code with where() forced to float64 gives the expected value
+        from ..exec.pyexec import PyModule
+
+        mod = PyModule(code, "jax")
+        mod.ns["numpy"] = NumpyFloatWhere(mod.ns["numpy"])
+        rec = mod.call(d["fn"], v["_point"], dt=d.get("dt"))
+        if rec.exc is None:
+            kindmap = "monitor" if d["fn"] == "monitor_values" else "state"
+            key = d["name"] if kindmap == "monitor" else [s for s, dn in ref.derivs.items() if dn == d["name"]][0]
+            got = float(rec.out[mod.names(kindmap)[key]])
+            if abs(got - d["expected"]) <= max(d["tol"], 1e-9 * abs(d["expected"])):
+                return "C03-integer-branches-make-int-where"
+    return None
+
+
+def own_state_under_floor_mod(ref):
+    import ast
+
+    for s, dn in ref.derivs.items():
+        for n in ast.walk(ref._parsed[dn]):
+            if isinstance(n, ast.Call) and getattr(n.func, "id", "") in ("floor", "Mod"):
+                if any(isinstance(k, ast.Name) and k.id == s for a in n.args for k in ast.walk(a)):
+                    return True
+    return False
+
+
+@matcher("C06")
+def c06_matchers(v, text="", ode=None, ref=None, code=None, **kw):
+    d = v.get("detail", {})
+    exc = d.get("exc", "") or ""
+    if v.get("kind") == "generation_raises" and ("_print_Derivative" in exc or "_print_Subs" in exc or "Derivative" in exc or "Subs" in exc) and ref is not None and own_state_under_floor_mod(ref):
+        return "C06-derivative-of-floor-mod-unprintable"
     return None
